@@ -14,3 +14,18 @@ Theorem SRC_step : forall dbg w o,
 Proof. exact src_step. Qed.
 
 Print Assumptions SRC_step.
+
+(* Whole histories: the arena reached by executing a history with the regenerated operations is the arena of the
+   model's run — so every theorem about reachable arenas speaks about the regenerated code.  Instances: *)
+From IT Require Import Props.
+From IT.proofs Require Import Reach Reach2.
+
+Theorem SRC_run : forall dbg ops w, g_run dbg ops (ar w) = ar (run dbg ops w).
+Proof. intros. apply g_run_is_run. Qed.
+
+Corollary SRC_C01_on_the_regenerated_operations : forall ops,
+  valid_hist false init ops -> LinksOK (g_run false ops empty_arena).
+Proof. intros ops H. change empty_arena with (ar init). rewrite g_run_is_run. apply reach_links_ok. exact H. Qed.
+
+Print Assumptions SRC_run.
+Print Assumptions SRC_C01_on_the_regenerated_operations.
